@@ -151,7 +151,7 @@ FIRST_MISSED = {
     'c08-y': '--act skipping the validation of the skipped phases: the same change is c03-y, caught by C03',
     'c09-x': 'NOT ANSWERED in this session: the case directory reached through a symbolic link / `..` and EXACTLY_HOME '
              'substituted in a string (value of a builtin symbol, not tokenisation)',
-    'c09-y': 'NOT ANSWERED in this session: `:>` / -existing-* arguments on the act line of the file-interpreter actor',
+    'c09-y': 'argument forms on the act line of the file-interpreter actor: caught by C10 (argv of every actor)',
     'c10-z': 'shell words whose value ends in white space (the line ends with an escaped space / tab)',
     'c11-x': 'NOT ANSWERED in this session: `cd link/..` where link is a symbolic link to a directory (needs symbolic '
              'links in the cd vocabulary and in the reference state machine)',
